@@ -3,6 +3,7 @@
 package vbb
 
 import (
+	"sort"
 	"encoding/json"
 	"fmt"
 	"net"
@@ -458,6 +459,55 @@ func TestC04Binary(t *testing.T) {
 			vlib.NT("c04bb-concurrent", r.fe, p.Kind, want)
 		}
 		vlib.Class("bb-probes-concurrent")
+		// the command line on a directory that no longer passes the consistency check (the check is on by default): whatever
+		// stops the command from asking the store is an internal error, and an internal error is a denial -- for right and
+		// wrong credentials alike
+		if len(cur) > 0 {
+			degr := []string{"stray-file", "both-extensions", "foreign-dir"}[len(c.Probes)%3]
+			var undo string
+			names := make([]string, 0, len(cur))
+			for n := range cur {
+				names = append(names, n)
+			}
+			sort.Strings(names)
+			switch degr {
+			case "stray-file":
+				undo = filepath.Join(base, names[0]+".user~")
+				os.WriteFile(undo, []byte("x\n"), 0o600)
+			case "foreign-dir":
+				undo = filepath.Join(base, "lost+found")
+				os.Mkdir(undo, 0o700)
+			case "both-extensions":
+				src := filepath.Join(base, names[0]+".user")
+				undo = filepath.Join(base, names[0]+".admin")
+				if _, err := os.Stat(src); err != nil {
+					src, undo = undo, src
+				}
+				b, _ := os.ReadFile(src)
+				os.WriteFile(undo, b, 0o600)
+			}
+			if d.Check() == nil {
+				os.RemoveAll(undo)
+				t.Fatalf("VERIF-INFRA the degraded directory (%s) still passes Check()", degr)
+			}
+			if len(names) > 2 {
+				names = names[:2]
+			}
+			for _, n := range names {
+				for _, pw := range []string{cur[n], "certainly-wrong"} {
+					if strings.HasPrefix(pw, "-") || strings.HasPrefix(n, "-") || strings.ContainsRune(pw, 0) {
+						continue
+					}
+					vlib.Eval()
+					if st, out := cli(cfgFile, nil, "authenticate", n, pw); st == 0 {
+						os.RemoveAll(undo)
+						t.Fatalf("VIOLATION C04: the command line accepted user %s (exit 0) on a directory that fails the consistency check (%s): an internal error is a denial; output: %s", vlib.Q(n), degr, strings.TrimSpace(out))
+					}
+				}
+			}
+			os.RemoveAll(undo)
+			vlib.Class("cli-on-a-directory-that-fails-the-check:" + degr)
+		}
 		vlib.Class("listeners:" + strings.Join(c.Listeners, "+"))
 		js, _ := json.Marshal(map[string]any{"case": c, "mgmt": mgmt})
 		if len(js) < 3000 {
